@@ -20,13 +20,29 @@ def marginal(phi, xx, keep):
             out = np.trapezoid(out, xx, axis=ax)
     return out
 
+def grid_for(dadi, rng, pts, it):
+    """grids for the L3 clauses: the default (symmetric) grid one time in three, otherwise grids whose first and last spacings differ"""
+    if it % 3 == 0:
+        return dadi.Numerics.default_grid(pts)
+    if it % 3 == 1 and hasattr(dadi.Numerics, 'quadratic_grid'):
+        try:
+            g = np.asarray(dadi.Numerics.quadratic_grid(pts), dtype=float)
+            if len(g) == pts and g[0] == 0 and g[-1] == 1: return g
+        except Exception:
+            pass
+    return gen.grid(rng, pts, kind=['asym', 'random', 'dadi-quadratic'][int(rng.integers(3))])[0]
+
 def l3_frozen_marginal(chk, ctx, rng, n):
     dadi = ctx['dadi']
     for it in range(n):
         d = 2 + it % 4
         pts = {2: 14, 3: 9, 4: 7, 5: 5}[d] + int(rng.integers(0, 2))
-        xx = dadi.Numerics.default_grid(pts)
+        xx = grid_for(dadi, rng, pts, it)
         phi = gen.density(rng, [pts] * d)
+        if it % 3 == 2:
+            # a density that went through reorder_pops (a transposed view), as demes-built models produce
+            perm = [int(x) + 1 for x in rng.permutation(d)]
+            phi = dadi.PhiManip.reorder_pops(np.ascontiguousarray(np.transpose(phi, np.argsort([q - 1 for q in perm]))), perm)
         nus, ms, gammas, hs, th, fr, nm = random_model(rng, d, g_max=8)
         if not any(fr):
             k = int(rng.integers(d)); fr[k] = True
@@ -43,7 +59,7 @@ def l3_frozen_marginal(chk, ctx, rng, n):
         chk.l3((key, tuple(fr)))
         inp = dict(d=d, pts=pts, frozen=fr, nomut=nm, nus=nus, ms=str(ms), gammas=gammas, hs=hs, theta0=th, T=T, varying=varying, phi=phi if phi.size < 400 else None)
         try:
-            out = integrate(dadi, d, phi.copy(), xx, T, **kw)
+            out = integrate(dadi, d, phi, xx, T, **kw)       # passed as it is (possibly a transposed view); must not be modified
         except Exception as e:
             chk.fail(key + ':raises:' + type(e).__name__, 'integrator raises %r' % (e,), inp); continue
         for k in range(d):
@@ -64,7 +80,7 @@ def l3_isolated_marginal(chk, ctx, rng, n):
         for it in range(n):
             d = 2 + it % 4
             pts = {2: 12, 3: 8, 4: 6, 5: 5}[d] + int(rng.integers(0, 2))
-            xx = dadi.Numerics.default_grid(pts)
+            xx = grid_for(dadi, rng, pts, it)
             phi = gen.density(rng, [pts] * d)
             nus = [gen.loguniform(rng, 0.1, 10) for _ in range(d)]
             fr = [bool(rng.random() < 0.15) for _ in range(d)]
@@ -85,7 +101,7 @@ def l3_isolated_marginal(chk, ctx, rng, n):
             chk.l3((key, tuple(S), tuple(fr)))
             inp = dict(d=d, S=S, pts=pts, nus=nus, frozen=fr, theta0=th, T=T, varying=varying)
             try:
-                full = integrate(dadi, d, phi.copy(), xx, T, **kw)
+                full = integrate(dadi, d, phi, xx, T, **kw)
                 phiS = np.ascontiguousarray(marginal(phi, xx, S))
                 if len(S) == 1 and kwS.get('frozen'):
                     alone = phiS.copy()
@@ -110,7 +126,7 @@ def l3_mass_per_kernel(chk, ctx, rng, n):
     for it in range(n):
         d = 1 + it % 5
         pts = {1: 16, 2: 10, 3: 7, 4: 5, 5: 4}[d] + int(rng.integers(0, 2))
-        xx = dadi.Numerics.default_grid(pts)
+        xx = grid_for(dadi, rng, pts, it)
         w = trap_w(xx)
         phi = gen.density(rng, [pts] * d)
         nus, ms, gammas, hs, th, fr, nm = random_model(rng, d, g_max=8)
